@@ -87,6 +87,15 @@ pub fn gen_client_history(property: &str, seed: u64) -> ClientHistory {
                     ops.push(COp::Kill);
                 }
                 if r.chance(1, 3) {
+                    // the user looks at the tower while it is away (and after the retrier may have given up)
+                    ops.push(COp::Advance { secs: cfg.max_retry_time + 2 * cfg.max_interval + 5 });
+                    ops.push(match r.below(3) {
+                        0 => COp::Register { t },
+                        1 => COp::AskTower { t, c: None },
+                        _ => COp::AskTower { t, c: Some(r.below(next_c.max(1) as u64) as u32) },
+                    });
+                }
+                if r.chance(1, 3) {
                     ops.push(COp::RetryTower { t });
                 }
                 if r.chance(1, 4) {
@@ -110,7 +119,13 @@ pub fn gen_client_history(property: &str, seed: u64) -> ClientHistory {
                 match r.below(5) {
                     0 => ops.push(COp::ListTowers),
                     1 => ops.push(COp::GetTowerInfo { t }),
-                    2 => ops.push(COp::RetryTower { t }),
+                    2 => {
+                        if r.chance(1, 2) {
+                            ops.push(COp::RetryTower { t })
+                        } else {
+                            ops.push(COp::AskTower { t, c: if r.chance(1, 2) { None } else { Some(r.below(next_c.max(1) as u64) as u32) } })
+                        }
+                    }
                     3 => {
                         if r.chance(1, 3) {
                             ops.push(COp::Lapse { t })
@@ -157,15 +172,39 @@ pub fn client_signature(property: &str, f: &CFoundC) -> String {
 
 pub fn run_client_in_thread(h: &ClientHistory) -> ClientResult {
     let h2 = h.clone();
-    std::thread::Builder::new()
+    let (tx, rx) = std::sync::mpsc::channel();
+    let handle = std::thread::Builder::new()
         .stack_size(16 << 20)
-        .spawn(move || run_client(&h2))
-        .unwrap()
-        .join()
-        .unwrap_or_else(|_| {
+        .spawn(move || {
+            let r = run_client(&h2);
+            let _ = tx.send(r);
+        })
+        .unwrap();
+    // all waiting inside the client is on the paused clock: a run takes milliseconds of real time unless the plugin
+    // blocks its (single) runtime thread for real, e.g. on a std mutex it already holds
+    match rx.recv_timeout(std::time::Duration::from_secs(2 * crate::check::HANG_SECS)) {
+        Ok(r) => {
+            let _ = handle.join();
+            r
+        }
+        Err(std::sync::mpsc::RecvTimeoutError::Disconnected) => {
             eprintln!("HARNESS ERROR: client simulation thread died");
             std::process::exit(2)
-        })
+        }
+        Err(std::sync::mpsc::RecvTimeoutError::Timeout) => {
+            crate::check::PROCESS_HAS_STUCK_THREAD.store(true, std::sync::atomic::Ordering::SeqCst);
+            ClientResult {
+                found: vec![CFoundC {
+                    property: "C14",
+                    clause: "client_wedged_for_real".into(),
+                    op_index: 0,
+                    op_kind: "?".into(),
+                    detail: format!("the plugin blocked its runtime thread: the simulation did not finish within {} s of real time", 2 * crate::check::HANG_SECS),
+                }],
+                stats: Default::default(),
+            }
+        }
+    }
 }
 
 fn reproduces(h: &ClientHistory, property: &str, sig: &str) -> bool {
